@@ -21,6 +21,7 @@ import socket
 import sys
 import tempfile
 import traceback
+import unittest
 from collections.abc import MutableMapping
 from contextlib import contextmanager
 from contextlib import suppress
@@ -1381,7 +1382,9 @@ class TestCaseInfo:
 def get_test_class_name(test):
     """Compute the test class name from the test object."""
     # A failing subtest is reported in the name of the test it belongs to.
-    test = getattr(test, 'test_case', test)
+    test_case = getattr(test, 'test_case', None)
+    if isinstance(test_case, unittest.TestCase):
+        test = test_case
     return f'{test.__module__}.{test.__class__.__name__}'
 
 
